@@ -19,6 +19,9 @@ CHECKS = {
     "C06": ("fault_enumeration", "runtime monitoring: offline trace checker (lifecycle automaton + registry-dispatched JSON-schema validation + cross-field checks) over traces of fault-injected runs; /proc/self/fd observer; sys.monitoring failpoints",
             "Every generated base pipeline is run traced with a fault of every kind {processor exception, unresolvable parameter, type gate, undeclared write, construction error x2, KeyboardInterrupt-class abort} inserted at every position, rotating detail levels and file/directory output (full cross in thorough); thorough adds source-free failpoints (an exception injected at every line event inside node-processing code). The emitted JSONL is read the moment the call returns/raises and checked by an automaton, schema validation, ID/edge/status cross-checks, exception identity and an open-descriptor scan. Held = no malformed trace among the faulted runs observed.",
             "Which node fails is taken from the reference model (C01). Faults inside the orchestrator's own emission code or the trace driver are outside the property's failure kinds.", "DESIGN.md §4 C06"),
+    "C12": ("exploration", "runtime monitoring: metamorphic/differential oracle over the real normalize_expression_sig_v1 (signature buckets vs exact evaluation, operand permutations, single-point mutants)",
+            "Every expression up to the tier's size bound (exhaustive over the stated alphabet, plus seeded larger samples) is passed to the real signature function; expressions sharing a signature are evaluated against each other in exact arithmetic (Fractions; polynomial fragment decided by normal form), every +/* operand permutation and re-association must keep the signature, every semantically different single-point mutant must change it, and the signature exposed in real sweep-class metadata / inspection payload must equal the direct one. Held = no counterexample among the expressions observed.",
+            "Exhaustive only up to the stated size and alphabet; equality outside the polynomial fragment rests on 8 exact assignments. Non-numeric constants are not generated (outside the property's numeric scope).", "DESIGN.md §4 C12"),
 }
 
 NOT_BUILT_REASON = "check not implemented yet in this round (work in progress; see DESIGN.md §4 for the planned monitor)"
